@@ -109,6 +109,23 @@ CHECKS = {
             'private copies. The binding self-test (corrupted digest, dropped event, changed result must be rejected) runs in '
             'every check.',
             'trace validation by TLC against a TLA+ purity specification + TLC-generated plane histories replayed into lentil'),
+    'C11': ('model_checking',
+            'Zernike.tla builds the Noll order from first principles and the integer radial coefficients from a Pascal table; TLC checks '
+            'the bijection j <-> (n, m) with the even-cosine rule for n <= 12, R(1) = 1 and exact radial orthogonality for n <= 7, and emits '
+            'the index table, exact radial values at 7 rational nodes per mode, and the exact centroid / rho^2 of the default coordinates for '
+            'masks from a case file. lentil is compared on all of them (both normalisations; sine sign left open).',
+            'DESIGN.md 5 C11',
+            'Trusted: float64 evaluation of cos/sin and sqrt(n+1), sqrt(2n+2). Orthonormality of the implementation over the disk is a '
+            'numeric leaf (exact quadrature). Theta orientation and the sign of sine modes are open conventions (not checked).',
+            'integer/rational Zernike definitions model-checked by TLC and used as oracle'),
+    'C12': ('model_checking',
+            'TLC enumerates all 156 ordered mode subsets (size <= 3) and proves the fit/compose/remove identities on an exact rational '
+            'instance (least squares by Cramer on integer vectors); every subset is mapped to contiguous and scattered Noll indices and the '
+            'same programs run on lentil over five mask types, both normalisations, default and supplied coordinates; post-conditions are '
+            'checked with a conditioning-scaled tolerance.',
+            'DESIGN.md 5 C12',
+            'Trusted: numerical post-condition checks with tolerance 1e-9*cond (ill-conditioned cases skipped and counted).',
+            'projection identities model-checked by TLC; TLC-enumerated programs replayed into lentil'),
     'C13': ('model_checking',
             'Spectrum!BinOp defines a binary operation on the piecewise-linear meaning of both operands (right operand expressed in the '
             'left one\'s unit, equally spaced grid over the union range, op of interpolated-or-fill values) over exact rationals. lentil '
